@@ -47,7 +47,7 @@ func init() {
 		Assumptions: []string{"Get only for i < words(s); ToStr only on in-range word values; from >= 0; end = -1 or >= 0"},
 		Flavours:    releaseAnd386,
 		Required: []string{"w=1", "w=2", "w=4", "w=8", "tostr/partial-last-byte", "tostr/empty", "firstdiff/end=-1", "firstdiff/from>=lim", "firstdiff/end-beyond-shorter", "firstdiff/found", "firstdiff/none",
-			"firstdiff/prefix-pair", "firstdiff/end>=MaxInt/8", "strs/empty-list", "strs/append-to-element", "byte>=0x80", "len>=300", "tostr/long-result-retained"},
+			"firstdiff/prefix-pair", "firstdiff/end>=MaxInt/8", "strs/empty-list", "strs/append-to-element", "strs/batch>=4096", "byte>=0x80", "len>=300", "tostr/long-result-retained"},
 		Families: func(c *mon.Config) []mon.Family {
 			return []mon.Family{
 				{Name: "one-two-byte", N: 4 * 257, Run: c08Enum},
@@ -316,6 +316,10 @@ func c08Strs(w *mon.W, idx int) {
 	n := c08Widths[idx%4]
 	bw := bitword.BitWord[n]
 	k := r.Intn(6)
+	if idx%200 == 199 {
+		k = 4096 + r.Intn(3000) // batches beyond 2^12 elements
+		w.Bucket("strs/batch>=4096")
+	}
 	strs := make([]string, k)
 	for i := range strs {
 		strs[i] = string(gen.ZooBytes(r, r.Intn(6)))
@@ -354,6 +358,9 @@ func c08Strs(w *mon.W, idx int) {
 	// hostile caller: every element of the FromStrs result is ours; append a word to each (a trie
 	// builder appends terminators) and check that no OTHER element changed, then scribble
 	for i := range ws {
+		if k > 64 && i%257 != 0 {
+			continue
+		}
 		ws[i] = append(ws[i], 0xee)
 		for j := range ws {
 			e := 8 * len(strs[j]) / n
